@@ -1,6 +1,7 @@
 package main
 
 import (
+	"fmt"
 	"go/types"
 	"strings"
 
@@ -162,6 +163,128 @@ func (e *Engine) checkHeaderIdentity() {
 		}
 		if !ok {
 			e.toolErrors = append(e.toolErrors, "RR.Header implementation "+name+" does not return the address of its first field; the heap model for rr.Header() is invalid")
+		}
+	}
+}
+
+func (e *Engine) lemma(name string) *Lemma {
+	for _, l := range e.cs.Lemmas {
+		if l.Name == name {
+			return l
+		}
+	}
+	return nil
+}
+
+// lemmaCtx builds the proof obligation of a lemma: its parameters are arbitrary, spec functions are defined.
+func (e *Engine) lemmaCtx(l *Lemma) (fc *FnCtx, err error) {
+	fc = e.newFnCtx(nil, nil)
+	fc.name = "lemma " + l.Name
+	defer func() {
+		if r := recover(); r != nil {
+			if ve, ok := r.(vcError); ok {
+				err = fmt.Errorf("%s", ve.msg)
+				return
+			}
+			panic(r)
+		}
+	}()
+	fc.declare("zeroarr", SArr)
+	fc.assertGlobal("(= zeroarr ((as const (Array Int Int)) 0))")
+	fc.entry = HeapState{m: map[string]string{}}
+	fc.cur = fc.entry.clone()
+	fc.curReach = "true"
+	bound := map[string]Val{}
+	for _, p := range l.Params {
+		switch p.Type {
+		case "seq", "string":
+			a, o, n := fc.fresh("l."+p.Name+".arr", SArr), fc.fresh("l."+p.Name+".off", SInt), fc.fresh("l."+p.Name+".len", SInt)
+			fc.assert(fmt.Sprintf("(and (<= 0 %s) (<= 0 %s))", o, n))
+			bound[p.Name] = Val{K: KStr, T: types.Typ[types.String], C: []string{a, o, n}}
+			fc.inputs = append(fc.inputs, o, n)
+		case "bool":
+			b := fc.fresh("l."+p.Name, SBool)
+			bound[p.Name] = boolVal(b)
+		default:
+			x := fc.fresh("l."+p.Name, SInt)
+			bound[p.Name] = intVal(x)
+			fc.inputs = append(fc.inputs, x)
+		}
+	}
+	env := &Env{fc: fc, heap: &fc.entry, old: &fc.entry, bound: bound, lookup: func(string) (Val, bool) { return Val{}, false }}
+	f := fc.evalBool(l.C.E, env)
+	ob := fc.oblige("lemma", l.Name, f, 0, &l.C)
+	ob.Name = "lemma " + l.Name
+	fc.finalize()
+	return fc, nil
+}
+
+// useLemmas adds the lemmas a contract cites as assumptions: `use name` (universally quantified) or
+// `use name(args)` (instantiated at entry values).
+func (fc *FnCtx) useLemmas() {
+	if fc.con == nil {
+		return
+	}
+	for _, u := range fc.con.Uses {
+		name := u
+		var argSrc string
+		if i := strings.Index(u, "("); i >= 0 && strings.HasSuffix(u, ")") {
+			name, argSrc = strings.TrimSpace(u[:i]), u[i+1:len(u)-1]
+		}
+		l := fc.e.lemma(name)
+		if l == nil {
+			fc.fail("use: unknown lemma %q", name)
+		}
+		fc.lemmasUsed = append(fc.lemmasUsed, name)
+		bound := map[string]Val{}
+		if argSrc != "" {
+			ce, err := parseExpr("f(" + argSrc + ")")
+			if err != nil {
+				fc.fail("use %s: %v", u, err)
+			}
+			args := ce.(*ECall).Args
+			if len(args) != len(l.Params) {
+				fc.fail("use %s: %d arguments expected", name, len(l.Params))
+			}
+			env := fc.entryEnv()
+			for i, p := range l.Params {
+				v := fc.evalExpr(args[i], env)
+				if p.Type == "seq" || p.Type == "string" {
+					a, o, n := fc.seqOf(v, &fc.entry)
+					v = Val{K: KStr, T: types.Typ[types.String], C: []string{a, o, n}}
+				}
+				bound[p.Name] = v
+			}
+			env2 := &Env{fc: fc, heap: &fc.entry, old: &fc.entry, bound: bound, lookup: func(string) (Val, bool) { return Val{}, false }}
+			fc.assertGlobal(fc.evalBool(l.C.E, env2))
+			continue
+		}
+		var qs []string
+		for _, p := range l.Params {
+			switch p.Type {
+			case "seq", "string":
+				fc.nfresh++
+				a, o, n := fmt.Sprintf("q%d.arr", fc.nfresh), fmt.Sprintf("q%d.off", fc.nfresh), fmt.Sprintf("q%d.len", fc.nfresh)
+				qs = append(qs, fmt.Sprintf("(%s %s) (%s Int) (%s Int)", a, SArr, o, n))
+				bound[p.Name] = Val{K: KStr, T: types.Typ[types.String], C: []string{a, o, n}}
+			case "bool":
+				fc.nfresh++
+				b := fmt.Sprintf("q%d.b", fc.nfresh)
+				qs = append(qs, fmt.Sprintf("(%s Bool)", b))
+				bound[p.Name] = boolVal(b)
+			default:
+				fc.nfresh++
+				x := fmt.Sprintf("q%d.i", fc.nfresh)
+				qs = append(qs, fmt.Sprintf("(%s Int)", x))
+				bound[p.Name] = intVal(x)
+			}
+		}
+		env := &Env{fc: fc, heap: &fc.entry, old: &fc.entry, bound: bound, lookup: func(string) (Val, bool) { return Val{}, false }}
+		body := fc.evalBool(l.C.E, env)
+		if len(qs) == 0 {
+			fc.assertGlobal(body)
+		} else {
+			fc.assertGlobal(fmt.Sprintf("(forall (%s) %s)", strings.Join(qs, " "), body))
 		}
 	}
 }
